@@ -6,6 +6,7 @@
      * a name bound to a function or class is rebound by a plain assignment (except the old-style
        `x = staticmethod(x)` / `x = classmethod(x)` wrapping of a plain function of the same class body)
      * an alias `x = y` (bare name on the right), an annotation without value, `x = property(..)`
+     * an assignment to __all__ / __docformat__ (module metadata)
      * `self.x = ..` outside a function body, an augmented assignment to a name that is not bound to a data value
      * a binding statement in an `else:`/`except`/`finally:` suite or in the body of an `if` that is false at import
        time (pydoctor walks `.body` suites only: outside the agreed subset, see C03_orelse_not_walked_observation)
@@ -203,7 +204,12 @@ End OFold.
 
 (* ---- bindings -------------------------------------------------------------------------------------- *)
 (* a plain assignment must not rebind a function or class *)
+(* __all__ and __docformat__ are module metadata, not variables to document: outside the subset *)
+Definition py_meta_names : list name :=
+  [[95;95;97;108;108;95;95]; [95;95;100;111;99;102;111;114;109;97;116;95;95]]%N.
+
 Definition bind_data (n : name) (v : pyval) (e : env) : option env :=
+  if mem n py_meta_names then None else
   match plookup n e with
   | Some (VFun _ _ _) | Some (VClass _ _ _) => None
   | _ => Some (bind n v e)
@@ -312,6 +318,7 @@ Fixpoint py_stmt (strict : bool) (x : stmt) (sc : pscope) (e : env) {struct x} :
       end
   | AnnAssign _ _ _ => None
   | AugAssign (TName n) _ =>
+      if mem n py_meta_names then None else
       match plookup n e with
       | Some (VData _) => Some (bind n (VData None) e)
       | _ => None
